@@ -25,15 +25,15 @@ var triggerRates = map[string]int{
 	"tmpl-shadow":     8,
 	"redefine":        5,
 	"defname":         6,
-	// Constructs inside the property's domain for which the UNCHANGED minifier
-	// changes program meaning (reported to the lead, not yet recorded): excluded
-	// by construction.  Their decision points are still drawn and counted
-	// (feat skip/<name>); C17_TRIG="export-list=40,nested-def=100" switches them
-	// on to confirm a defect or, later, a repair.
-	"export-list":       0, // (export '(a b)) and (export "a")
-	"export-other-file": 0, // (export 'f) in another file than (defun f ...)
-	"headname":          0, // a user function called test / test-let (heads the analyzer special-cases)
-	"nested-def":        0, // defun inside a top-level let (closure idiom) or progn
+	// Constructs inside the property's domain for which the minifier changes
+	// program meaning; recorded as known findings in round 6 (keys in
+	// oracle_test.go r6Keys), so rationed like the ones above.  In the cases that
+	// did not opt in, the decision points are still drawn and counted (feat
+	// skip/<name>); C17_TRIG="export-list=40,nested-def=100" overrides a rate.
+	"export-list":       6, // (export '(a b)) and (export "a")
+	"export-other-file": 8, // (export 'f) in another file than (defun f ...)
+	"headname":          6, // a user function called test / test-let (heads the analyzer special-cases)
+	"nested-def":        6, // defun inside a top-level let (closure idiom) or progn
 }
 
 var triggerOrder = []string{"xname", "dotimes-result", "qqdata", "macrolet", "tmpl-shadow", "redefine", "samefile-import", "defname",
@@ -573,7 +573,7 @@ func (g *gen) section(p *pkg, first bool, earlier []*pkg, consumer bool) {
 			g.feat("export-in-other-file")
 			g.e.head("export")
 			g.e.quote()
-			g.e.sym(Occ{N: b.name, R: "ref", B: b.id, K: b.kind, C: "export-form"})
+			g.e.sym(Occ{N: b.name, R: "ref", B: b.id, K: b.kind, C: "export-form", X: "export-other-file"})
 			g.e.close()
 			g.e.nl()
 			b.exported = true
@@ -662,7 +662,7 @@ func (g *gen) section(p *pkg, first bool, earlier []*pkg, consumer bool) {
 				g.feat("export-quoted-list")
 				g.quoteMarkOpen()
 				for _, b := range grp {
-					g.e.sym(Occ{N: b.name, R: "ref", B: b.id, K: b.kind, C: "export-form"})
+					g.e.sym(Occ{N: b.name, R: "ref", B: b.id, K: b.kind, C: "export-form", X: "export-list"})
 				}
 				g.e.close()
 			case g.may("export-list", 15):
@@ -670,6 +670,11 @@ func (g *gen) section(p *pkg, first bool, earlier []*pkg, consumer bool) {
 				g.feat("export-string")
 				for _, b := range grp {
 					g.e.lit(strconv.Quote(b.name))
+					// no symbol to annotate: mark the definition instead
+					b.expSpell = "export-string"
+					if b.occAt > 0 && b.occFile == g.fileIdx && b.occAt <= len(g.e.occ) {
+						g.e.occ[b.occAt-1].X = b.expSpell
+					}
 				}
 			default:
 				for _, b := range grp {
@@ -709,6 +714,10 @@ func (g *gen) section(p *pkg, first bool, earlier []*pkg, consumer bool) {
 			if g.chance(60) {
 				b.nested = "let"
 				cv := g.newLocal(g.binderName(localPool), "let", tNum)
+				// the analyzer registers the defun in the let's own scope: a let
+				// variable of the same name is overwritten there, so what goes
+				// wrong with the variable belongs to the same finding
+				cv.nested = "let"
 				g.e.head("let")
 				g.e.open()
 				g.e.open()
